@@ -568,6 +568,8 @@ func (vc *VC) specialSort(t types.Type) Sort {
 		switch n.Obj().Pkg().Path() + "." + n.Obj().Name() {
 		case "bytes.Buffer":
 			return SString
+		case pkgPath + ".traceT":
+			return STrace
 		}
 	}
 	return vc.ss.SortOf(t)
